@@ -23,6 +23,8 @@ use lattices::tombstone::{FstTombstoneSet, RoaringTombstoneSet, TombstoneSet};
 use lattices::{IsBot, LatticeFrom, Max, Merge};
 use vcommon::{Args, Reporter, Rng, Tier, Value, catch, hash_of, json};
 
+mod laws;
+
 const ENGINE: &str = "mon_tomb";
 const MAXD: usize = 8;
 
@@ -66,7 +68,7 @@ fn items<I: Item>(mask: u8) -> impl Iterator<Item = I> {
 // ---------------------------------------------------------------------------------------------
 // Tombstone backends
 
-trait Tomb<I: Item>: TombstoneSet<I> + Clone + FromIterator<I> + IntoIterator<Item = I> + 'static {
+trait Tomb<I: Item>: TombstoneSet<I> + Clone + Default + FromIterator<I> + IntoIterator<Item = I> + 'static {
     const TNAME: &'static str;
     /// Building an FST costs ~100 µs (the builder zeroes a large registry), so it gets a smaller share
     /// of the workload (see `Group::fst_every`).
@@ -687,7 +689,7 @@ fn check_group(rep: &mut Reporter, g: &Group) {
 // partial_cmp / == of the HashSet-backed types (the Roaring and FST backends implement neither
 // `cc_traits::Iter` nor `Get`, so the crate gives them no PartialOrd/PartialEq).
 
-trait CmpImp: Imp {
+trait CmpImp: laws::Law {
     fn cmp(a: &Self, b: &Self) -> (Option<Ordering>, bool);
 }
 impl<I: Item> CmpImp for SetF<I, HashSet<I>> {
@@ -710,10 +712,10 @@ fn ord_name(o: Option<Ordering>) -> &'static str {
     }
 }
 
-fn check_cmp_one<F: CmpImp>(rep: &mut Reporter, kind: VKind, a: &St, b: &St) {
+fn check_cmp_one<F: CmpImp>(rep: &mut Reporter, pid: &str, kind: VKind, a: &St, b: &St) {
     debug_assert!(a.valid() && b.valid());
-    let iname = F::name();
-    let case = || json!({"engine": ENGINE, "mode": "cmp", "kind": kind_name(kind), "a": a.json(), "b": b.json()});
+    let iname = if pid == "C05" { F::name() } else { <F as laws::Law>::tyname() };
+    let case = || json!({"engine": ENGINE, "mode": "cmp", "prop": pid, "kind": kind_name(kind), "a": a.json(), "b": b.json()});
     let want = match (model_le(kind, a, b), model_le(kind, b, a)) {
         (true, true) => Some(Ordering::Equal),
         (true, false) => Some(Ordering::Less),
@@ -722,36 +724,36 @@ fn check_cmp_one<F: CmpImp>(rep: &mut Reporter, kind: VKind, a: &St, b: &St) {
     };
     rep.eval();
     match catch(|| F::cmp(&F::build(a), &F::build(b))) {
-        Err(p) => rep.violation(&format!("C05|{iname}|partial_cmp-or-eq-panics"), &p, case()),
+        Err(p) => rep.violation(&format!("{pid}|{iname}|partial_cmp-or-eq-panics"), &p, case()),
         Ok((got, eq)) => {
             rep.count(&format!("cmp_{}", ord_name(want)));
             if got != want {
                 rep.violation(
-                    &format!("C05|{iname}|partial_cmp-wrong|{}-for-{}", ord_name(got), ord_name(want)),
+                    &format!("{pid}|{iname}|partial_cmp-wrong|{}-for-{}", ord_name(got), ord_name(want)),
                     &format!("partial_cmp gives {}, merge-induced order is {}", ord_name(got), ord_name(want)),
                     case(),
                 );
             }
             if eq != (want == Some(Ordering::Equal)) {
-                rep.violation(&format!("C05|{iname}|eq-wrong|returned-{eq}"), &format!("== gives {eq}, model order is {}", ord_name(want)), case());
+                rep.violation(&format!("{pid}|{iname}|eq-wrong|returned-{eq}"), &format!("== gives {eq}, model order is {}", ord_name(want)), case());
             }
         }
     }
 }
 
-fn check_cmp(rep: &mut Reporter, kind: VKind, a: &St, b: &St) {
+fn check_cmp(rep: &mut Reporter, pid: &str, kind: VKind, a: &St, b: &St) {
     match kind {
         VKind::Unit => {
-            check_cmp_one::<SetF<u64, HashSet<u64>>>(rep, kind, a, b);
-            check_cmp_one::<SetF<String, HashSet<String>>>(rep, kind, a, b);
+            check_cmp_one::<SetF<u64, HashSet<u64>>>(rep, pid, kind, a, b);
+            check_cmp_one::<SetF<String, HashSet<String>>>(rep, pid, kind, a, b);
         }
         VKind::Max => {
-            check_cmp_one::<MapF<u64, HashSet<u64>, Max<u8>>>(rep, kind, a, b);
-            check_cmp_one::<MapF<String, HashSet<String>, Max<u8>>>(rep, kind, a, b);
+            check_cmp_one::<MapF<u64, HashSet<u64>, Max<u8>>>(rep, pid, kind, a, b);
+            check_cmp_one::<MapF<String, HashSet<String>, Max<u8>>>(rep, pid, kind, a, b);
         }
         VKind::SetU => {
-            check_cmp_one::<MapF<u64, HashSet<u64>, SetUnionHashSet<u8>>>(rep, kind, a, b);
-            check_cmp_one::<MapF<String, HashSet<String>, SetUnionHashSet<u8>>>(rep, kind, a, b);
+            check_cmp_one::<MapF<u64, HashSet<u64>, SetUnionHashSet<u8>>>(rep, pid, kind, a, b);
+            check_cmp_one::<MapF<String, HashSet<String>, SetUnionHashSet<u8>>>(rep, pid, kind, a, b);
         }
     }
     if a != b {
@@ -901,7 +903,7 @@ fn replay(rep: &mut Reporter, case: &Value) {
                 .collect();
             check_group(rep, &Group { kind, fam: case["family"].as_str().unwrap_or("replay"), states: &states, plans: &plans, fst_every: 1 });
         }
-        "cmp" => check_cmp(rep, kind, &St::from_json(&case["a"]), &St::from_json(&case["b"])),
+        "cmp" => check_cmp(rep, case["prop"].as_str().unwrap_or("C05"), kind, &St::from_json(&case["a"]), &St::from_json(&case["b"])),
         m => panic!("unknown replay mode {m}"),
     }
 }
@@ -911,7 +913,11 @@ fn main() {
     if args.prop == "NONE" {
         return;
     }
-    assert_eq!(args.prop, "C05", "mon_tomb serves C05");
+    if ["C01", "C02", "C03"].contains(&args.prop.as_str()) {
+        // the tombstone lattices' share of the crate-wide lattice laws
+        return laws::run(&args);
+    }
+    assert_eq!(args.prop, "C05", "mon_tomb serves C05 (and the tombstone share of C01-C03)");
     let mut rep = Reporter::new("C05", args.seed);
     if let Some(case) = args.replay_case() {
         replay(&mut rep, &case);
@@ -995,14 +1001,14 @@ fn main() {
         let valid_sets: Vec<St> = set_states.iter().copied().filter(|s| s.valid()).collect();
         for a in &valid_sets {
             for b in &valid_sets {
-                check_cmp(&mut rep, VKind::Unit, a, b);
+                check_cmp(&mut rep, "C05", VKind::Unit, a, b);
             }
         }
         for kind in [VKind::Max, VKind::SetU] {
             let ms: Vec<St> = (0..512).map(|c| map_state(3, 3, c)).filter(|s| s.valid()).collect();
             for a in &ms {
                 for b in &ms {
-                    check_cmp(&mut rep, kind, a, b);
+                    check_cmp(&mut rep, "C05", kind, a, b);
                 }
             }
         }
@@ -1031,7 +1037,7 @@ fn main() {
                 }
             }
         }
-        if rng.chance(1, 2) { check_cmp(&mut rep, kind, &a, &b) } else { check_cmp(&mut rep, kind, &b, &a) }
+        if rng.chance(1, 2) { check_cmp(&mut rep, "C05", kind, &a, &b) } else { check_cmp(&mut rep, "C05", kind, &b, &a) }
     }
 
     // minimum observation
